@@ -45,6 +45,12 @@ RULE = (
     "switch_map/delay_subscription/subscribe_on replaces, or on the inner/duration/closing observables of local variants "
     "of switch_map, throttle_with_mapper, window_when(+merge_all) and timeout_with_mapper; the terminal is then delivered "
     "re-entrantly inside the operator's release of the old resource; same release oracle. "
+    "Family queued_inners: bounded-concurrency merging - concat_map(mapper) or map(mapper)+merge(max_concurrent=1..2) over "
+    "mapper-made logged inners (1-3 specs chosen by element hash, mostly completing, some erroring / never ending) on a "
+    "cold/hot source of 2-6 elements, so inners beyond the limit wait in the operator's queue and are subscribed later from "
+    "a sibling's completion; ended by a sibling inner's or the outer source's error, or downstream by take/first/take_until/"
+    "take_with_time (+observe_on), or not at all; same release oracle (a dequeued inner is a source subscription the "
+    "pipeline opened like any other). "
     "Non-trivial: the top probe terminated, >=2 source subscriptions were opened and at least one of them was "
     "opened on a source that had not delivered its own terminal by T. Distinct = distinct case JSON."
 )
@@ -613,6 +619,101 @@ def cases_tdt():
     )
 
 
+# ---------------------------------------------------------------------------------------
+# bounded-concurrency merging: merge(max_concurrent=n) over mapper-made logged inners, and concat_map (= n 1).  Inners
+# beyond n wait in the operator's queue and are subscribed later, from a sibling's completion, on a different code path
+# than inners subscribed straight from the outer on_next.  The pipeline is then ended while such a dequeued inner is
+# still running: by a sibling inner's error, the outer source's error, take/first/take_until/take_with_time downstream.
+# In the shared grammar this needs concat_map / map_to_obs+merge_max, >n inners, an early completion and an early end at
+# once (a handful of cases per quick run).
+
+QUEUE_LOCAL = ("merge_max_map", "concat_map_q")
+
+
+def _build_queue_op(B, name, a):
+    B._owner = B.opi
+    B.cur = name
+    owner = B._owner
+    specs = a["os"]
+    lab = B.lab
+
+    def inner(*xs):
+        s = B._mk(specs[B.h(*xs) % len(specs)], owner, True)
+        s.made_at = lab.now()
+        return s
+
+    f = B.fn("mapper", inner)
+    if name == "concat_map_q":
+        o = ops.concat_map(f)
+    else:
+        o = ops.compose(ops.map(f), ops.merge(max_concurrent=a["n"]))
+    B.opi += 1
+    return o
+
+
+def make_queue(case):
+    pc = case["pipe"]
+
+    def make(lab):
+        B = OBuilder(lab)
+        o = B.build_root(pc["root"])
+        for name, args in pc["ops"]:
+            o = (_build_queue_op(B, name, args) if name in QUEUE_LOCAL else B.build_op(name, args))(o)
+        return o
+
+    return make
+
+
+def _run_queue(case):
+    lab, p = run_pipeline(case, make_queue(case))
+    r = judge(case, case["pipe"], lab, p)
+    term = p.terminal()
+    extra = []
+    if term is not None and not r.inconclusive:
+        T = term[0]
+        qi = [i for i, (n, _) in enumerate(case["pipe"]["ops"]) if n in QUEUE_LOCAL][0]
+        name, a = case["pipe"]["ops"][qi]
+        made = [s for s in lab.sources if getattr(s, "dynamic", False) and getattr(s, "owner", -1) == qi]
+        n = 1 if name == "concat_map_q" else a["n"]
+        if len(made) > n:
+            extra.append("queue:more-inners-than-slots")
+        # an inner subscribed at a later instant than the one its mapper call made it in was started from the queue
+        # (sufficient, not necessary: a dequeue within the same instant is not counted)
+        deq = [(s, ab) for s in made for ab in s.subs if ab[0] > s.made_at]
+        if deq:
+            extra.append("queue:dequeued-inner-subscribed")
+        if any(a0 <= T and not _src_done_by(s, a0, T) for s, (a0, _b) in deq):
+            extra.append(f"queue:{name}:dequeued-inner-pending-at-terminal:{term[1]}")
+    r.classes = tuple(r.classes) + tuple(extra)
+    return r
+
+
+def cases_queue():
+    from vlib.lab import timelines
+    from vlib.pipes import s_src
+
+    src = st.fixed_dictionaries({"kind": st.sampled_from(["cold", "hot", "cold"]), "tl": timelines(max_len=6, max_dt=2, min_len=2, terminal=(None, "C", "C", "E"))})
+    inner = st.fixed_dictionaries({"kind": st.sampled_from(["cold", "cold", "cold", "sync"]), "tl": timelines(max_len=3, max_dt=3, terminal=("C", "C", "C", "E", None))})
+    inners = st.lists(inner, min_size=1, max_size=3)
+    qop = st.one_of(
+        inners.map(lambda os_: ["concat_map_q", {"os": os_}]),
+        st.tuples(inners, st.integers(1, 2)).map(lambda t: ["merge_max_map", {"os": t[0], "n": t[1]}]),
+    )
+    pre = st.lists(st.sampled_from(["map", "filter", "do_action"]).flatmap(lambda n: st.tuples(st.just(n), OPS[n].args).map(list)), max_size=1)
+    enders = st.one_of(
+        st.integers(1, 5).map(lambda n: [["take", {"n": n}]]),
+        st.integers(1, 4).map(lambda n: [["take", {"n": n}], ["observe_on", {}]]),
+        s_src(("cold", "hot")).map(lambda sp: [["take_until", {"o": sp}]]),
+        st.integers(1, 10).map(lambda d: [["take_with_time", {"d": d}]]),
+        st.just([["first", {"p": None}]]),
+        st.just([]),
+        st.just([]),
+    )
+    return st.fixed_dictionaries({"src": src, "pre": pre, "q": qop, "end": enders, "inner": inner_policies(), "raise": s_raise, "clock": s_clock}).map(
+        lambda c: {"pipe": {"root": {"f": "single", "srcs": [c["src"]]}, "ops": c["pre"] + [c["q"]] + c["end"]}, "inner": c["inner"], "raise": c["raise"], "clock": c["clock"]}
+    )
+
+
 def checks(tier):
     q = tier == "quick"
     return [
@@ -621,5 +722,6 @@ def checks(tier):
         Check("gbu_self", _run_gbu, strategy=cases_gbu(), examples={"quick": 600, "thorough": 16 * 1000}, shards={"quick": 4, "thorough": 16}),
         Check("iter_take", _run_iter, strategy=cases_iter(), examples={"quick": 400, "thorough": 16 * 1000}, shards={"quick": 4, "thorough": 16}),
         Check("teardown_term", _run_tdt, strategy=cases_tdt(), examples={"quick": 600, "thorough": 16 * 1500}, shards={"quick": 4, "thorough": 16}),
+        Check("queued_inners", _run_queue, strategy=cases_queue(), examples={"quick": 800, "thorough": 16 * 1500}, shards={"quick": 4, "thorough": 16}),
         Check("enders", _run, strategy=cases_forced(3 if q else 5), examples={"quick": 1000, "thorough": 16 * 2000}, shards={"quick": 4, "thorough": 16}),
     ]
